@@ -309,6 +309,7 @@ func c15Eval(c c15Case) (ok bool, sig, detail string) {
 	if res.Exit != 0 {
 		return false, "command-fails", what + fmt.Sprintf(": exit status %d: %s", res.Exit, strings.ReplaceAll(strings.TrimSpace(res.Stderr), "\n", " | "))
 	}
+	engine.Outcome(fmt.Sprintf("%x", engine.Hash(string(res.Stdout))))
 	outs, perr := c15Parse(res.Stdout)
 	if perr != "" {
 		return false, "output-unreadable", what + ": output cannot be read back: " + strings.ReplaceAll(perr, "\n", " ")
